@@ -330,12 +330,20 @@ def _evaluate_cell(defect):
         from sktime.forecasting.model_selection import SlidingWindowSplitter
         from sktime.forecasting.naive import NaiveForecaster
         cv = SlidingWindowSplitter(fh=[1, 2], window_length=10, step_length=4)
-        f = NaiveForecaster()
+        f, fb = NaiveForecaster(), NaiveForecaster()          # fb: the forecaster of the refused call, must come back unfitted
         kw = {"forecaster": f, "cv": cv, "y": cx.y.copy()}
         if defect.startswith("y:"):
             bad = dict(kw, y=cx.bad_y(defect[2:]))
-        elif defect == "strategy":
-            bad = dict(kw, strategy="retrain")
+        elif defect.startswith("strategy"):
+            # an unknown strategy name, whatever the number of folds the splitter yields (several, exactly one)
+            name_ = ["retrain", "Refit", "", None, 1, "update "][int(cx.rng.integers(0, 6))]
+            if defect == "strategy:single-split":
+                from sktime.forecasting.model_selection import SingleWindowSplitter
+                cv = SingleWindowSplitter(fh=[1, 2], window_length=10)
+            elif defect == "strategy:window-fits-once":
+                cv = SlidingWindowSplitter(fh=[1, 2], window_length=cx.n - 2, step_length=3)
+            kw = dict(kw, cv=cv)
+            bad = dict(kw, strategy=name_)
         elif defect == "cv-not-splitter":
             from sklearn.model_selection import KFold
             bad = dict(kw, cv=KFold(2))
@@ -346,7 +354,8 @@ def _evaluate_cell(defect):
         elif defect.startswith("X-index"):
             bad = dict(kw, X=cx.bad_X(defect[8:] or "shifted"))
             kw = dict(kw, X=cx.X.copy())
-        return (lambda: evaluate(**bad)), (lambda: evaluate(**kw)), None
+        bad = dict(bad, forecaster=fb)
+        return (lambda: evaluate(**bad)), (lambda: evaluate(**kw)), fb
     return run
 
 
@@ -456,7 +465,7 @@ for _d in ("ensemble:dup-names-apart", "multiplex:dup-names-apart", "stack:dup-n
            "stack:non-forecaster", "stack:non-regressor-meta", "stack:name-clashes-param", "pipeline:dup-names", "pipeline:dunder-name", "pipeline:name-clashes-param",
            "pipeline:non-transformer-step", "pipeline:last-not-forecaster", "pipeline:forecaster-as-step"):
     _add("composite:" + _d, _composite_cell(_d))
-for _d in ["y:" + c for c in Y_CLASSES] + ["strategy", "cv-not-splitter", "scoring-not-callable", "start_with_window-false", "X-index", "X-index:longer", "X-index:longer-front", "X-index:shorter"]:
+for _d in ["y:" + c for c in Y_CLASSES] + ["strategy", "strategy:single-split", "strategy:window-fits-once", "cv-not-splitter", "scoring-not-callable", "start_with_window-false", "X-index", "X-index:longer", "X-index:longer-front", "X-index:shorter"]:
     _add("evaluate:" + _d, _evaluate_cell(_d))
 for _d in ["y:" + c for c in Y_CLASSES if c != "dataframe"] + ["fh-and-test_size", "fh-in-sample", "X-index", "X-index:longer", "X-index:longer-front", "X-index:shorter"] + ["fh:" + c for c in ("dup", "empty", "frac", "str", "tuple", "empty-fh-object", "empty-abs-fh-object", "empty-array", "dup-index-sorted")]:
     _add("train_test_split:" + _d, _tts_cell(_d))
